@@ -1097,3 +1097,39 @@ def _kf_c37(self, tier):
 
 
 C37.kf_cases = _kf_c37
+
+
+@_register
+class C38(Spec):
+    check_id = 'C38'
+    family = 'poly'
+    needs_numpy = True
+    title = 'secure polynomial arithmetic agrees with plain polynomial arithmetic'
+    technique = 'deterministic simulation (numpy mode) + gfpx polynomials as reference'
+    quick = {'runs': 600, 'wall': 85}
+    thorough = {'runs': 100000, 'wall': 900}
+    per_run_timeout = 300
+    assumptions = ['numpy 2.5.3 from the offline wheelhouse installed into /verif/.deps', 'gfpx plain polynomial arithmetic is the reference (C23 is not claimed here)',
+                   "the clause 'only the length bound is public' is not checked (no wire analysis for secure polynomials)"]
+
+    def make_case(self, seed, tier):
+        from .families import polyfam
+        rng = random.Random(f'C38/{seed}')
+        cfg = sample_cfg(rng, tier, m_max=3 if tier == 'quick' else 5)
+        prog = polyfam.gen(rng, cfg, tier, kf=(seed % 10 == 7))
+        return {'family': 'poly', 'cfg': cfg.to_json(), 'prog': prog, 'seed': seed, 'opts': {'step_cap': 4000000}}
+
+    def sample(self, case, res):
+        return {'seed': case['seed'], 'cfg': case['cfg'], 'prog': case['prog'], 'results': repr(res.results)[:200]}
+
+
+def _kf_c38(self, tier):
+    return [{'family': 'poly', 'cfg': _cfgj(1, 0),
+             'prog': {'family': 'poly', 'p': 11, 'stmts': [['const', 'f1', [], {'coeffs': [6, 4, 0, 0]}], ['is_irreducible', 'f5', ['f1'], {}]],
+                      'outputs': ['f5'], 'tags': ['irreducible_hidden_degree']}},
+            {'family': 'poly', 'cfg': _cfgj(2, 0), 'opts': {'step_cap': 30000, 'cap_is_violation': True},
+             'prog': {'family': 'poly', 'p': 31, 'stmts': [['const', 'f2', [], {'coeffs': [0]}], ['monic', 'f3', ['f2'], {}]],
+                      'outputs': ['f3'], 'tags': ['monic_zero']}}]
+
+
+C38.kf_cases = _kf_c38
